@@ -39,6 +39,7 @@ def wrap_objective(objective, data, pdf, stitch_pars, do_grad=False, jit_pieces=
         def func(pars):
             pars = tensorlib.astensor(pars)
             constrained_pars = stitch_pars(pars)
-            return objective(constrained_pars, data, pdf)[0]
+            # hand the optimizer a plain number, as the gradient path does
+            return objective(constrained_pars, data, pdf).numpy()[0]
 
     return func
